@@ -42,6 +42,8 @@ def families(tier):
     # describe): only the reference-free obligations - pre-state restored, next build = its twin on the restored pre-state
     q.append({'name': 'A5c', 'params': {'hist': 'F', 'kinds': ['is_dir'], 'modes': ['ok', 'raise_after'], 'no_reference': True}, 'weight': 1})
     q.append({'name': 'A5c', 'params': {'hist': 'BF', 'kinds': ['is_dir'], 'modes': ['ok', 'raise_after'], 'no_reference': True}, 'weight': 1})
+    q.append({'name': 'A5d', 'params': {'hist': 'F', 'kinds': ['is_dir'], 'modes': ['ok', 'raise_after'], 'no_reference': True}, 'weight': 1})
+    q.append({'name': 'A5d', 'params': {'hist': 'BF', 'kinds': ['is_dir'], 'modes': ['ok', 'raise_after'], 'no_reference': True}, 'weight': 1})
     q.append({'name': 'backups', 'params': {}, 'weight': 1})
     # '... or while the cache file is being written': an OSError at the open / data write / final rename of the cache write
     q.append({'name': 'cachewrite', 'params': {'skel': 'A3', 'hist': 'X', 'kinds': ['is_dir'], 'roles': ['o'], 'targets': ['o/d/g'],
